@@ -311,7 +311,8 @@ class Exec:
         if kind.startswith("ensures") and z3.is_quantifier(gz) and len(st.pc) > 12:
             recent = list(st.pc[-12:])
             chk = z3.Solver()
-            chk.set("timeout", 400)
+            chk.set("rlimit", 3000000)         # a deterministic budget: the shape of the VCs must not depend on machine load
+            chk.set("timeout", 20000)
             chk.add(*recent)
             chk.add(z3.Not(gz))
             if chk.check() == z3.unsat:
